@@ -179,9 +179,11 @@ func (u *unmGen) tagFor(kind string) (Expr, string) {
 		}
 	case "str":
 		e = g.Any(1)
-	default: // node-set valued, for struct and slice fields
-		g.Cfg.Filters, g.Cfg.Unions = r.Chance(1, 4), r.Chance(1, 4)
-		e = g.NodeSet(1, r.Chance(3, 4))
+	default: // node-set valued, for struct and slice fields: forward paths, so that "result order" is document order
+		save := g.Cfg.Axes
+		g.Cfg.Axes = ForwardAxes
+		e = g.forwardNodeSet(1)
+		g.Cfg.Axes = save
 	}
 	return e, Render(e, &Style{R: r, Abbrev: true})
 }
